@@ -235,7 +235,7 @@ def metaS (m : AL.CallMeta.Meta) : String :=
 
 /-- `callmeta <node>`: the interface of a reusable workflow from the document node, both ways.
 Answer: `file=<interface|error|notfound|unsupported> ast=<interface|none> diags=<number of parser diagnostics>
-hyp=<1|0|na>` (hyp: the hypotheses of AL.Props.C10Meta.interface_agrees_checked hold for the `workflow_call:` node) -/
+hyp=<1|0|na>` (hyp: the hypotheses of AL.Props.C10Meta.document_interface_agrees_checked hold for the document; na: no `on: workflow_call:` mapping) -/
 def handleCallMeta : List String → String
   | [node] =>
     match (readSExp node) >>= nodeOf with
@@ -250,7 +250,7 @@ def handleCallMeta : List String → String
         | some m => metaS m
         | none => "none"
       let hyp := match AL.CallMeta.callNode n with
-        | some c => if AL.CallMeta.saneB 3 c && AL.CallMeta.noPlaceholderB c then "1" else "0"
+        | some _ => if AL.CallMeta.docHypB cfg n then "1" else "0"
         | none => "na"
       s!"file={f} ast={a} diags={(parse cfg n).2.length} hyp={hyp}"
     | none => "bad-op"
